@@ -460,10 +460,13 @@ fn gen_cases(seed: u64, n: usize, tier: &str) -> Vec<Case> {
         push("npoints", 0.0, 0.0, 65534, "boundary", &mut v);
         push("npoints", 0.0, 0.0, 70000, "boundary", &mut v);
         push("npoints", 0.0, 0.0, 131073, "boundary", &mut v);
-        for ng in [65534u64, 65535, 65536] {
-            push("nglyphs", 0.0, 0.0, ng, "boundary", &mut v);
-            push("nglyphs", 1.0, 0.0, ng, "boundary", &mut v);
+        for nc in [32766u64, 32767, 32768] {
+            push("ncontours", 0.0, 0.0, nc, "boundary", &mut v);
         }
+        push("nglyphs", 0.0, 0.0, 65535, "boundary", &mut v);
+        push("nglyphs", 0.0, 0.0, 65536, "boundary", &mut v);
+        push("nglyphs", 1.0, 0.0, 65536, "boundary", &mut v);
+        push("nglyphs", 0.0, 0.0, 65537, "boundary", &mut v);
     }
     for w in [0u64, 1, 5, 9, 10, 11, 65535] {
         push("widthclass", 0.0, 0.0, w, "boundary", &mut v);
@@ -769,6 +772,15 @@ fn build_source(c: &Case) -> Option<Source> {
         "npoints" => {
             let mut a = GlyphSrc::new("a", 600.0).uni(0x61);
             a.contours.push(zigzag(c.n));
+            single(vec![a], &["a"])
+        }
+        "ncontours" => {
+            // c.n two-point contours
+            let mut a = GlyphSrc::new("a", 600.0).uni(0x61);
+            for i in 0..c.n {
+                let (x, y) = ((i % 200) as f64 * 10.0, (i / 200) as f64 * 10.0);
+                a.contours.push(vec![(x, y, Pt::Line), (x + 5.0, y + 5.0, Pt::Line)]);
+            }
             single(vec![a], &["a"])
         }
         "nglyphs" => {
@@ -1173,6 +1185,10 @@ fn fields_of(c: &Case, bytes: &[u8]) -> Option<Vec<i64>> {
         "adv" => {
             out.push(f.metric(b"hmtx", b"hhea", 1)?.0);
             out.push(f.hea(b"hhea", 10, false)?);
+            // minLeftSideBearing, minRightSideBearing, xMaxExtent (derived summaries, clamped)
+            out.push(f.hea(b"hhea", 12, true)?);
+            out.push(f.hea(b"hhea", 14, true)?);
+            out.push(f.hea(b"hhea", 16, true)?);
         }
         "coord" | "diff" => {
             dump_body(&f.glyph(1)?, &mut out);
@@ -1224,6 +1240,13 @@ fn fields_of(c: &Case, bytes: &[u8]) -> Option<Vec<i64>> {
                     out.push(ends.len() as i64);
                     out.push(*ends.last().unwrap_or(&-1));
                 }
+                _ => out.push(-1),
+            }
+        }
+        "ncontours" => {
+            out.push(f.maxp(2)?);
+            match f.glyph(1)? {
+                Body::Simple { ends, .. } => out.push(ends.len() as i64),
                 _ => out.push(-1),
             }
         }
@@ -1364,6 +1387,10 @@ enum Expect {
     AnyOf(Vec<(Vec<i64>, Vec<usize>)>),
     /// the value cannot be represented: an emitted font is a violation whatever it contains
     MustReject,
+    /// representable in principle, but another format limit may legitimately stop the build
+    /// (post 2.0 cannot index more than 65277 non-standard glyph names): if a font is
+    /// emitted the fields must be these
+    IfEmitted(Vec<i64>),
 }
 
 const SQ: [(f64, f64); 4] = [(0.0, 0.0), (100.0, 0.0), (100.0, 100.0), (0.0, 100.0)];
@@ -1424,8 +1451,9 @@ fn expect(c: &Case) -> Expect {
     };
     match c.kind {
         "adv" => {
+            // .notdef: advance 500, box 50..450; a and b: box 0..100; b advance 600
             let r = otr(c.a);
-            ex(fitsu16(r).then(|| vec![r, r.max(600)]))
+            ex(fitsu16(r).then(|| vec![r, r.max(600), 0, (r - 100).min(50).max(-32768), 450]))
         }
         "vadv" => {
             let r = otr(c.a);
@@ -1517,9 +1545,14 @@ fn expect(c: &Case) -> Expect {
             let n = c.n as i64;
             ex((n <= 65535).then(|| vec![n.max(8), 1, n - 1]))
         }
+        "ncontours" => {
+            // numberOfContours is an i16 (write-fonts asserts n < 32767, one less than the format allows)
+            let n = c.n as i64;
+            if n < 32767 { Expect::Exactly(vec![n, n]) } else if n == 32767 { Expect::IfEmitted(vec![n, n]) } else { Expect::MustReject }
+        }
         "nglyphs" => {
             let n = c.n as i64;
-            ex((n <= 65535).then(|| vec![n, n]))
+            if n <= 65535 { Expect::IfEmitted(vec![n, n]) } else { Expect::MustReject }
         }
         "widthclass" => ex((1..=9).contains(&c.n).then(|| vec![c.n as i64])),
         _ => Expect::MustReject,
@@ -1530,26 +1563,27 @@ fn expect(c: &Case) -> Expect {
 ///  what the field is)
 fn keys(kind: &str) -> (&'static str, &'static str, &'static str) {
     match kind {
-        "adv" => ("hmtx-advance-saturates", "hmtx-advance-profiles-differ", "advance width (fontbe/src/metrics_and_limits.rs: width.ot_round() -> u16)"),
-        "vadv" => ("vmtx-advance-height-saturates", "vmtx-advance-height-profiles-differ", "advance height (fontir/src/ir.rs GlyphInstance::height: ot_round() -> u16)"),
-        "coord" => ("glyf-coordinate-saturates", "glyf-coordinate-delta-i16-overflow", "outline coordinate (write-fonts CurvePoint::from via fontbe/src/glyphs.rs: ot_round() -> i16)"),
-        "diff" => ("glyf-coordinate-saturates", "glyf-coordinate-delta-i16-overflow", "difference of successive outline coordinates (write-fonts SimpleGlyph::compute_point_deltas via fontbe/src/glyphs.rs: i16 `-`)"),
-        "compoff" => ("glyf-component-offset-saturates", "glyf-component-offset-profiles-differ", "component offset (fontbe/src/glyphs.rs create_component_ref_gid: e.ot_round() -> i16)"),
-        "compbbox" => ("glyf-composite-bbox-saturates", "glyf-composite-bbox-profiles-differ", "composite bounding box (fontbe/src/glyphs.rs compute_composite_bboxes: Rect -> Bbox, ot_round() -> i16)"),
-        "scale" => ("glyf-component-scale-saturates", "glyf-component-scale-profiles-differ", "component 2x2 entry (fontbe/src/glyphs.rs: F2Dot14::from_f64)"),
-        "flatscale" => ("glyf-flattened-component-scale-saturates", "glyf-flattened-component-scale-profiles-differ", "component 2x2 entry after --flatten-components (fontir/src/glyph.rs flatten_glyph, then fontbe/src/glyphs.rs F2Dot14::from_f64)"),
-        "kern" => ("gpos-kern-value-saturates", "gpos-kern-value-profiles-differ", "kerning value (fontbe/src/features.rs resolve_variable_metric: ot_round() -> i16)"),
-        "anchor" => ("gpos-anchor-coordinate-saturates", "gpos-anchor-coordinate-profiles-differ", "anchor coordinate (fontbe/src/features.rs resolve_variable_metric: ot_round() -> i16)"),
-        "vorig" => ("vmtx-vertical-origin-saturates", "vmtx-top-side-bearing-i16-overflow", "vertical origin (fontir/src/ir.rs GlyphInstance::vertical_origin: ot_round() -> i16)"),
-        "tsb" => ("vmtx-top-side-bearing-wraps", "vmtx-top-side-bearing-i16-overflow", "top side bearing (fontbe/src/vertical_metrics.rs: vertical_origin - bbox.y_max on i16)"),
-        "hhea" => ("hhea-line-metric-saturates", "hhea-line-metric-profiles-differ", "hhea ascender/descender/lineGap (fontbe/src/metrics_and_limits.rs: ot_round() -> i16)"),
-        "hvar" => ("hvar-advance-delta-saturates", "hvar-advance-delta-profiles-differ", "advance delta (fontbe/src/metric_variations.rs: values[0].ot_round() -> i16)"),
-        "gvar" => ("gvar-point-delta-saturates", "gvar-point-delta-profiles-differ", "outline point delta (write-fonts iup via fontbe/src/glyphs.rs compute_deltas: ot_round() -> i16)"),
-        "compdelta" => ("gvar-component-offset-delta-saturates", "gvar-component-offset-delta-profiles-differ", "component offset delta (fontbe/src/glyphs.rs process_composite_deltas: ot_round() -> (i16, i16))"),
-        "comptotal" => ("maxp-composite-total-wraps", "maxp-composite-total-over-u16", "maxp composite totals (fontbe/src/metrics_and_limits.rs update_composite_limits)"),
-        "npoints" => ("glyf-point-count-wraps", "glyf-end-point-u16-overflow", "points of one glyph (fontbe/src/metrics_and_limits.rs num_points `as u16`; write-fonts SimpleGlyph::write_into `cur as u16 - 1`)"),
-        "nglyphs" => ("glyph-count-wraps", "glyph-count-profiles-differ", "number of glyphs (fontir/src/ir.rs GlyphId16::new(i as _); fontbe/src/metrics_and_limits.rs num_glyphs)"),
-        "widthclass" => ("widthclass-wrong-value", "widthclass-zero-debug-panic", "WidthClass::try_from(u16) (fontdrasil/src/types.rs: (value - 1) on u16)"),
+        "adv" => ("metrics_and_limits.rs:hmtx.advance:saturates", "metrics_and_limits.rs:hmtx.advance:profiles-differ", "advance width (fontbe/src/metrics_and_limits.rs: width.ot_round() -> u16)"),
+        "vadv" => ("ir.rs:GlyphInstance.height:saturates", "ir.rs:GlyphInstance.height:profiles-differ", "advance height (fontir/src/ir.rs GlyphInstance::height: ot_round() -> u16)"),
+        "coord" => ("glyphs.rs:glyf.coordinate:saturates", "glyphs.rs:glyf.coordinate_delta:i16-overflow", "outline coordinate (write-fonts CurvePoint::from via fontbe/src/glyphs.rs: ot_round() -> i16)"),
+        "diff" => ("glyphs.rs:glyf.coordinate:saturates", "glyphs.rs:glyf.coordinate_delta:i16-overflow", "difference of successive outline coordinates (write-fonts SimpleGlyph::compute_point_deltas via fontbe/src/glyphs.rs: i16 `-`)"),
+        "compoff" => ("glyphs.rs:component.offset:saturates", "glyphs.rs:component.offset:profiles-differ", "component offset (fontbe/src/glyphs.rs create_component_ref_gid: e.ot_round() -> i16)"),
+        "compbbox" => ("glyphs.rs:composite.bbox:saturates", "glyphs.rs:composite.bbox:profiles-differ", "composite bounding box (fontbe/src/glyphs.rs compute_composite_bboxes: Rect -> Bbox, ot_round() -> i16)"),
+        "scale" => ("glyphs.rs:component.transform:saturates", "glyphs.rs:component.transform:profiles-differ", "component 2x2 entry (fontbe/src/glyphs.rs: F2Dot14::from_f64)"),
+        "flatscale" => ("glyph.rs:flatten_glyph.transform:saturates", "glyph.rs:flatten_glyph.transform:profiles-differ", "component 2x2 entry after --flatten-components (fontir/src/glyph.rs flatten_glyph, then fontbe/src/glyphs.rs F2Dot14::from_f64)"),
+        "kern" => ("features.rs:kern.value:saturates", "features.rs:kern.value:profiles-differ", "kerning value (fontbe/src/features.rs resolve_variable_metric: ot_round() -> i16)"),
+        "anchor" => ("features.rs:anchor.coordinate:saturates", "features.rs:anchor.coordinate:profiles-differ", "anchor coordinate (fontbe/src/features.rs resolve_variable_metric: ot_round() -> i16)"),
+        "vorig" => ("ir.rs:GlyphInstance.vertical_origin:saturates", "vertical_metrics.rs:top_side_bearing:i16-overflow", "vertical origin (fontir/src/ir.rs GlyphInstance::vertical_origin: ot_round() -> i16)"),
+        "tsb" => ("vertical_metrics.rs:top_side_bearing:wraps", "vertical_metrics.rs:top_side_bearing:i16-overflow", "top side bearing (fontbe/src/vertical_metrics.rs: vertical_origin - bbox.y_max on i16)"),
+        "hhea" => ("metrics_and_limits.rs:hhea.line_metric:saturates", "metrics_and_limits.rs:hhea.line_metric:profiles-differ", "hhea ascender/descender/lineGap (fontbe/src/metrics_and_limits.rs: ot_round() -> i16)"),
+        "hvar" => ("metric_variations.rs:hvar.delta:saturates", "metric_variations.rs:hvar.delta:profiles-differ", "advance delta (fontbe/src/metric_variations.rs: values[0].ot_round() -> i16)"),
+        "gvar" => ("glyphs.rs:gvar.point_delta:saturates", "glyphs.rs:gvar.point_delta:profiles-differ", "outline point delta (write-fonts iup via fontbe/src/glyphs.rs compute_deltas: ot_round() -> i16)"),
+        "compdelta" => ("glyphs.rs:gvar.component_delta:saturates", "glyphs.rs:gvar.component_delta:profiles-differ", "component offset delta (fontbe/src/glyphs.rs process_composite_deltas: ot_round() -> (i16, i16))"),
+        "comptotal" => ("metrics_and_limits.rs:maxp.composite_total:wraps", "metrics_and_limits.rs:maxp.composite_total:over-u16", "maxp composite totals (fontbe/src/metrics_and_limits.rs update_composite_limits)"),
+        "npoints" => ("metrics_and_limits.rs:maxp.num_points:wraps", "glyphs.rs:glyf.end_point:u16-overflow", "points of one glyph (fontbe/src/metrics_and_limits.rs num_points `as u16`; write-fonts SimpleGlyph::write_into `cur as u16 - 1`)"),
+        "ncontours" => ("metrics_and_limits.rs:maxp.num_contours:wraps", "metrics_and_limits.rs:maxp.num_contours:profiles-differ", "contours of one glyph (fontbe/src/metrics_and_limits.rs num_contours `as u16`; write-fonts SimpleGlyph::write_into asserts < i16::MAX)"),
+        "nglyphs" => ("ir.rs:glyph_order.glyph_id:wraps", "metrics_and_limits.rs:maxp.num_glyphs:profiles-differ", "number of glyphs (fontir/src/ir.rs GlyphId16::new(i as _); fontbe/src/metrics_and_limits.rs num_glyphs)"),
+        "widthclass" => ("types.rs:WidthClass.try_from:wrong-value", "types.rs:WidthClass.try_from:debug-panic", "WidthClass::try_from(u16) (fontdrasil/src/types.rs: (value - 1) on u16)"),
         _ => ("c19-unknown", "c19-unknown", ""),
     }
 }
@@ -1557,7 +1591,7 @@ fn keys(kind: &str) -> (&'static str, &'static str, &'static str) {
 fn meets(e: &Expect, fields: &[i64]) -> bool {
     match e {
         Expect::MustReject => false,
-        Expect::Exactly(v) => v.as_slice() == fields,
+        Expect::Exactly(v) | Expect::IfEmitted(v) => v.as_slice() == fields,
         Expect::AnyOf(alts) => alts.iter().any(|(v, approx)| {
             v.len() == fields.len() && v.iter().zip(fields).enumerate().all(|(i, (a, b))| if approx.contains(&i) { (a - b).abs() <= 1 } else { a == b })
         }),
@@ -1592,7 +1626,9 @@ fn coq_src(d: &Design, origin: Option<f64>, hhea: [f64; 3]) -> String {
         let g = m.glyphs.iter().find(|g| &g.name == name).expect("glyph in order");
         let h = g.height.unwrap_or(1000.0);
         if g.components.is_empty() {
-            if g.contours.len() == 1 && g.contours[0].len() > 1000 {
+            if g.contours.len() > 1000 {
+                gs.push(format!("(SrcSimple {} {} (twopoints {}%nat))", cq(g.advance), cq(h), g.contours.len()));
+            } else if g.contours.len() == 1 && g.contours[0].len() > 1000 {
                 gs.push(format!("(SrcSimple {} {} [zigzag {}%nat])", cq(g.advance), cq(h), g.contours[0].len()));
             } else {
                 gs.push(format!("(SrcSimple {} {} {})", cq(g.advance), cq(h), coq_list(&g.contours, |c| coq_pts(c))));
@@ -1637,7 +1673,7 @@ fn coq_case(c: &Case, dbg: &Obs, rel: &Obs) -> Option<String> {
     };
     let dflt = [800.0, -200.0, 0.0];
     match c.kind {
-        "adv" => via_build("fun f => [fst (nth 1 (f_hmtx f) (0, 0)); f_adv_max f]", None, dflt),
+        "adv" => via_build("fun f => [fst (nth 1 (f_hmtx f) (0, 0)); f_adv_max f; f_min_lsb f; f_min_rsb f; f_max_extent f]", None, dflt),
         "vadv" => via_build("fun f => match f_vmtx f with Some v => [fst (nth 1 v (0, 0)); zmax0 (map fst v)] | None => [] end", Some(800.0), dflt),
         "coord" | "diff" => via_build("fun f => dump_glyf (nth 1 (f_glyf f) GEmpty) ++ bbox_list (f_head f)", None, dflt),
         "compoff" | "compbbox" => via_build("fun f => dump_glyf (nth 3 (f_glyf f) GEmpty) ++ bbox_list (f_head f)", None, dflt),
@@ -1652,12 +1688,8 @@ fn coq_case(c: &Case, dbg: &Obs, rel: &Obs) -> Option<String> {
             via_build(["fun f => [f_asc f]", "fun f => [f_desc f]", "fun f => [f_gap f]"][c.n as usize], None, h)
         }
         "comptotal" => via_build("fun f => [x_max_comp_points (f_maxp f); x_max_comp_contours (f_maxp f); x_max_points (f_maxp f); x_max_comp_elements (f_maxp f)]", None, dflt),
+        "ncontours" => via_build("fun f => x_max_contours (f_maxp f) :: match nth 1 (f_glyf f) GEmpty with GSimple s => [zlen (so_ends s)] | _ => [-1] end", None, dflt),
         "npoints" => via_build("fun f => x_max_points (f_maxp f) :: match nth 1 (f_glyf f) GEmpty with GSimple s => [zlen (so_ends s); last (so_ends s) (-1)] | _ => [-1] end", None, dflt),
-        "nglyphs" => {
-            // c.n - 1 empty glyphs after .notdef
-            let advs = if c.a == 1.0 { "true" } else { "false" };
-            both(&|p| format!("(project (fun f => [x_num_glyphs (f_maxp f); zlen (f_glyf f)]) (build {} (mk_src (notdef_src :: empty_glyphs {} {}%nat) (800#1) (-200#1) 0 None [] [])))", p, advs, c.n - 1))
-        }
         "flatscale" => {
             let (s1, s2) = (c.a, c.b);
             let inner = format!("[(1, {}); (1, {})]", coq_aff(&[s2, 0.0, 0.0, s2, 0.0, 0.0]), coq_aff(&[1.0, 0.0, 0.0, 1.0, 300.0, 0.0]));
@@ -1695,7 +1727,7 @@ fn observe_all(cases: &[Case], threads: usize) -> Vec<Obs> {
     let mut order: Vec<usize> = (0..cases.len()).collect();
     order.sort_by_key(|i| match cases[*i].kind {
         "nglyphs" => 0,
-        "npoints" => 1,
+        "npoints" | "ncontours" => 1,
         "comptotal" => 2,
         _ => 3,
     });
@@ -1805,7 +1837,7 @@ fn main() {
         let Some(r) = rel.get(&c.id) else { continue };
         let (sat_key, arith_key, what) = keys(c.kind);
         let e = expect(c);
-        let representable = !matches!(e, Expect::MustReject);
+        let representable = matches!(e, Expect::Exactly(_) | Expect::AnyOf(_));
         let ctx = json!({"case": c.id, "kind": c.kind, "a": c.a, "b": c.b, "n": c.n, "draw": c.draw,
             "debug": {"outcome": d.class, "fields": d.fields.iter().take(60).collect::<Vec<_>>(), "message": d.msg},
             "release": {"outcome": r.class, "fields": r.fields.iter().take(60).collect::<Vec<_>>(), "message": r.msg},
@@ -1830,7 +1862,7 @@ fn main() {
         } else if d.class == "font" {
             if !meets(&e, &d.fields) {
                 let want = match &e {
-                    Expect::Exactly(v) => format!("representable, faithful fields {:?}", &v[..v.len().min(24)]),
+                    Expect::Exactly(v) | Expect::IfEmitted(v) => format!("representable, faithful fields {:?}", &v[..v.len().min(24)]),
                     Expect::AnyOf(v) => format!("representable, e.g. {:?}", &v[0].0[..v[0].0.len().min(24)]),
                     Expect::MustReject => "not representable: the build must fail or fall back".to_string(),
                 };
@@ -1841,7 +1873,7 @@ fn main() {
                 *rejected_by_panic.entry(c.kind.to_string()).or_default() += 1;
             }
             if representable {
-                emit_violation(&format!("{}-representable-value-rejected", c.kind), format!("{what}: a={} b={} n={}: representable, but both builds fail: {}", c.a, c.b, c.n, d.msg), ctx.clone());
+                emit_violation(&format!("{}:representable-value-rejected", sat_key.rsplit_once(':').map(|x| x.0).unwrap_or(c.kind)), format!("{what}: a={} b={} n={}: representable, but both builds fail: {}", c.a, c.b, c.n, d.msg), ctx.clone());
             }
         }
         if let Some(coq) = coq_case(c, d, r) {
